@@ -12,6 +12,7 @@ RULE = ("each case runs propka.run.single on a structure (repository proteins, c
         "the window was checked; distinct = distinct (structure digest, grid)."
         " 30 % of the cut-outs carry 1-3 ligands / nucleotides (groups of one type with different model pKa values).")
 RULE = RULE + ' Round 8: grids with a third decimal; the written charge table must stand on the requested grid and is judged at the grid points themselves; API profiles are held against the grid.'
+RULE = RULE + ' Round 11: one acid with 40-70 arginines (and the reverse) with pI windows reaching pH 18 / -5.'
 ASSUMPTIONS = ["the total charge is strictly decreasing in pH, so the root in a window is unique",
                "pI tolerance = precision*(1+1e-6)+1e-9; text tolerance 0.005"]
 TIMEOUT = {"quick": 1800, "thorough": 10800}
